@@ -67,6 +67,12 @@ class Equations:
                 if re.fullmatch(r'y_[0-9]+', name):
                     raise ValueError(
                         f"Symbol name {name} in equation {eqn.name} is reserved for the previous-step vector in {type(self).__name__}!")
+            # `<var>_tag_<k>` is the name under which the generated functions (and update_param) keep the value of <var>
+            # k steps back: a variable or parameter of that name would silently be merged with that alias
+            for symbol_ in list(eqn.SYMBOLS.values()) + [getattr(s, 'symbol0', s) for s in eqn.RHS.free_symbols]:
+                if re.fullmatch(r'.+_tag_[0-9]+', symbol_.name) and not isinstance(symbol_, iAliasVar):
+                    raise ValueError(
+                        f"Symbol name {symbol_.name} in equation {eqn.name} is reserved for the alias of a variable in {type(self).__name__}!")
         self.EQNs.update({eqn.name: eqn})
         self.SYMBOLS.update(eqn.SYMBOLS)
         self.a.add(eqn.name)
@@ -144,6 +150,8 @@ class Equations:
         if not self.is_param_defined(name):
             warnings.warn(f'Parameter {name} not defined in equations!')
         if isinstance(param, ParamBase):
+            if self._has_prev_step and not param.is_alias and re.fullmatch(r'.+_tag_[0-9]+', name):
+                raise ValueError(f"Parameter name {name} is reserved for the alias of a variable in {type(self).__name__}!")
             self.PARAM[name] = param
             if param.triggerable:
                 self.triggerable_quantity[param.name] = param.trigger_var
